@@ -393,10 +393,13 @@ class Segment:
     def run_job(self, pin):
         """Execute the job of `pin` the way a worker would (real run_md in-process), counting
         every random number drawn from outside the job's own streams."""
+        import pickle
         from infretis.core import tis
-        md = self.inflight[pin]
+        # the work unit crosses a process boundary in both directions: the worker gets a copy and the
+        # main process gets a copy of the result (a worker cannot mutate the main process's objects)
+        md = pickle.loads(pickle.dumps(self.inflight[pin]))
         with ForeignRandomness() as fr:
-            out = tis.run_md(md)
+            out = pickle.loads(pickle.dumps(tis.run_md(md)))
         self._foreign = fr.count
         self._foreign_who = fr.who
         return out
